@@ -159,7 +159,7 @@ class Interp:
         self.effects.append(e)
         return e
 
-    def decide(self, known, node, desc=""):
+    def decide(self, known, node, desc="", value=None):
         """known: True/False/None.  Unknown -> consult the decision vector."""
         if known is not None:
             return bool(known)
@@ -176,7 +176,7 @@ class Interp:
         self.taken.append(out)
         if skey is not None:
             self.sticky_memo[skey] = out
-        self.conds.append((self.site(node), desc or (ast.unparse(node) if node is not None else "?"), out))
+        self.conds.append((self.site(node), desc or (ast.unparse(node) if node is not None else "?"), out, value))
         if len(self.taken) > 40:
             raise PathBudget("too many undecided branches on one path")
         return out
@@ -347,7 +347,7 @@ class Interp:
 
     def st_If(self, st):
         c = self.eval(st.test)
-        if self.decide(self.truth(c), st.test):
+        if self.decide(self.truth(c), st.test, value=c):
             self.exec_block(st.body)
         else:
             self.exec_block(st.orelse)
@@ -702,7 +702,7 @@ class Interp:
 
     def ev_IfExp(self, node):
         c = self.eval(node.test)
-        if self.decide(self.truth(c), node.test):
+        if self.decide(self.truth(c), node.test, value=c):
             return self.eval(node.body)
         return self.eval(node.orelse)
 
@@ -713,7 +713,7 @@ class Interp:
             last = self.eval(e)
             if i == len(node.values) - 1:
                 return last
-            t = self.decide(self.truth(last), e)
+            t = self.decide(self.truth(last), e, value=last)
             if is_and and not t:
                 return last
             if (not is_and) and t:
